@@ -9,14 +9,21 @@ IMPL_S = "impl Source for ConcatSource {"
 IMPL_C = "impl ConcatSource {"
 
 
-def leaf(u, relpath, struct_anchor, impl_anchor, tname, field, text_spec, from_fn):
+def leaf(u, relpath, struct_anchor, impl_anchor, tname, field, text_spec, from_fn, raw_spec=None, lazy=False):
     """a leaf's four content views against the reduced trait's contract (= C07 for that leaf): the methods are cut verbatim out of
     `impl Source for <leaf>` and re-assembled as an impl of the reduced trait, so Verus checks each against the trait's `ensures`"""
     u.item(relpath, struct_anchor)
-    u.raw(f"impl Source for {tname} {{\n  closed spec fn text(&self) -> Seq<u8> {{ {text_spec} }}\n  closed spec fn raw(&self) -> Seq<u8> {{ {text_spec} }}", ("glue", NAME))
+    u.raw(f"impl Source for {tname} {{\n  closed spec fn text(&self) -> Seq<u8> {{ {text_spec} }}\n  closed spec fn raw(&self) -> Seq<u8> {{ {raw_spec or text_spec} }}", ("glue", NAME))
     for fn in ("source", "rope", "buffer", "size"):
         m = u.method(relpath, impl_anchor, fn)
-        if fn == "rope":
+        if lazy and fn in ("source", "rope"):
+            # W2: the initialiser closure gets its type and the contract of the decoding it performs (`lossy` is uninterpreted: the
+            # views only have to agree on it), so that Verus can check `get_or_init`'s precondition and use its result
+            m.rule("W2", r"\.get_or_init\(\|\| String::from_utf8_lossy\(&self\.value\)\.to_string\(\)\)",
+                   ".get_or_init(|| -> (r: String) ensures encode_utf8(r@) == lossy(self.value@) { lossy_string(&self.value) })", fn=fn)
+        if lazy and fn == "rope":
+            m.rule("D6f", r"Rope::from\(", "Rope::from_string(", fn="rope")
+        elif fn == "rope":
             # D6f: `Rope::from(&self.<field>)` -> the named constructor of the opaque Rope type (`From<&String>` / `From<&Cow<str>>`)
             m.rule("D6f", r"Rope::from\(&self\." + field + r"\)", f"Rope::{from_fn}(&self.{field})", fn="rope")
         if fn in ("source", "buffer") and from_fn == "from_cow":
@@ -29,7 +36,7 @@ def leaf(u, relpath, struct_anchor, impl_anchor, tname, field, text_spec, from_f
 
 
 def build(u):
-    for x in ["use vstd::string::StringSliceAdditionalSpecFns;", "use vstd::utf8::*;", "use std::borrow::Cow;", "use std::sync::Arc;"]:
+    for x in ["use vstd::string::StringSliceAdditionalSpecFns;", "use vstd::utf8::*;", "use std::borrow::Cow;", "use std::sync::Arc;", "use std::sync::OnceLock;"]:
         u.use(x)
     u.raw("broadcast use vstd::string::group_string_axioms;", ("glue", NAME))
     u.spec("concat_spec.rs")
@@ -107,6 +114,8 @@ def build(u):
     # D6: `SourceMap` (fields of SourceMapSource that the four content views never touch) as an opaque type
     u.raw("#[verifier::external_body]\npub struct SourceMap { _p: std::marker::PhantomData<u8> }", ("glue", NAME))
     leaf(u, "src/source_map_source.rs", "pub struct SourceMapSource {", "impl Source for SourceMapSource {", "SourceMapSource", "value", "encode_utf8(self.value@)", "from_string")
+    leaf(u, "src/raw_source.rs", "pub struct RawBufferSource {", "impl Source for RawBufferSource {", "RawBufferSource", "value", 
+         "match lock_val(&self.value_as_string) { Some(s) => encode_utf8(s@), None => lossy(self.value@) }", "from_string", raw_spec="self.value@", lazy=True)
     leaf(u, "src/raw_source.rs", "pub struct RawStringSource(", "impl Source for RawStringSource {", "RawStringSource", "0", "cow_str_bytes(&self.0)", "from_cow")
     u.contracted += [("ConcatSource::children", "src/concat_source.rs"), ("ConcatSource::source", "src/concat_source.rs"), ("ConcatSource::rope", "src/concat_source.rs"),
                      ("ConcatSource::buffer", "src/concat_source.rs"), ("ConcatSource::size", "src/concat_source.rs")]
